@@ -137,7 +137,7 @@ pub fn run_case(t: &Trace) -> CaseResult {
     }
     // differential second execution
     if let Some(eb) = &t.env_b {
-        if base.violations.is_empty() && base.constructed {
+        if base.constructed {
             let tb = apply_env_b(t);
             let rb = execute(
                 &tb,
@@ -149,7 +149,7 @@ pub fn run_case(t: &Trace) -> CaseResult {
             );
             absorb(&mut out, &rb, &tb);
             out.stats.bump("differential_pairs");
-            if rb.violations.is_empty() {
+            {
                 if let Some((step, d)) = diff_logs(t, &base.log, &rb.log) {
                     let (prop, oracle) = if eb.strip_observers {
                         ("C13", "twin_run_differs")
@@ -171,6 +171,21 @@ pub fn run_case(t: &Trace) -> CaseResult {
                 }
             }
         }
+    }
+    // Runs through constructors that hard-wire RandomState *and* whose results depend on the hash
+    // values (key digests of the estimator / cost tracker, hash-table order of fill_sample) are the
+    // one part of the search the simulator does not own (DESIGN 3.6): their outcome logs are not
+    // part of the determinism claim, and a violation found there is only reported if it replays.
+    let partly_uncontrolled = t.header.kind == crate::alpha::Kind::Sampled && t.header.ctor != 0;
+    if (t.header.random_state
+        && matches!(
+            t.header.kind,
+            crate::alpha::Kind::Wtlfu | crate::alpha::Kind::Tlfu | crate::alpha::Kind::Sampled
+        ))
+        || partly_uncontrolled
+    {
+        out.log_hash = crate::rng::mix(0xD1CE, t.run_index);
+        out.stats.bump("uncontrolled_hash_dependent_runs");
     }
     // C18: enumerate the injection points of this history
     if t.prop == "C18" && base.violations.is_empty() {
